@@ -529,6 +529,9 @@ class PyMap(Val):
     def py_iter(self, cx):
         return enum_of_pred(lambda x: z3.Select(self.dom, x), "map")
 
+    def m_copy(self, cx):
+        return PyMap(self.dom, self.val, self.valty, self.cls), None
+
     def m_values(self, cx):
         """dict.values(): the values along an arbitrary duplicate-free enumeration of the keys"""
         ke = enum_of_pred(lambda x: z3.Select(self.dom, x), "mapk")
